@@ -7,6 +7,11 @@ P = {'id': 'C16',
               'reclaim_safe',
               'counters_exact_at_quiescence',
               'counters_zero_when_done',
+              'seq_no_dangling',
+              'seq_own_tokens',
+              'seq_counters_exact',
+              'seq_counters_zero',
+              'seq_writer_exclusion',
               'two_writers_refuted',
               'min_version_overtakes_refuted',
               'reclaim_unsafe_refuted',
@@ -32,8 +37,9 @@ P = {'id': 'C16',
                'These hold for the access order of the code after two fix: commits; for the order of the pinned tree the same model refutes (i) and '
                '(ii) with explicit schedules that also failed on the real code. The model is tied to the code on every run by executing real threads '
                'under explicit schedules (hooks before every shared access) and comparing every step with the model evaluated in Coq.',
- 'level_note': 'Trusted: Coq kernel + vm_compute; hand-written model; hook placement; harness scheduler and oracle. Memory safety of the token release '
-               '(iv) is decided on the real code by a registry of destroyed managers consulted by every release (hook), not by proof.',
+ 'level_note': 'Trusted: Coq kernel + vm_compute; hand-written model; hook placement; harness scheduler and oracle. For (iv) the model carries the Arc '
+               'reference count of each manager state (seq_no_dangling); on the real code every release consults a registry of destroyed manager states '
+               '(hook), also at thread exit.',
  'technique': 'Coq: inductive invariant over all reachable states of an interleaving semantics (rely/guarantee-style frame lemmas), refutation by '
               'vm_compute on explicit schedules; controlled-scheduler (baton passing) differential check of real threads against the model; '
               'pre-emption-bounded schedule enumeration + random schedules; direct oracle on observed tokens and counters',
